@@ -174,6 +174,13 @@ def h_handler(shape, L):
         builtin_sub = None
     else:
         raise ValueError(kind)
+    if shape.get("late"):
+        # the configuration has already been used (a bean dumped with it) when the handler is registered
+        try:
+            first = beans.D1()
+            jsonclass.dump([first, {"k": first}], config=config)
+        except Exception:  # noqa
+            return 10
     config.serialize_handlers[htype] = handler
     wrapped = place(shape["pos"], value, L) if shape["pos"] != "beanattr" else None
     if shape["pos"] == "beanattr":
